@@ -1068,3 +1068,277 @@ Proof.
   exact (run_refines hstate compute ims_on parse_ims sanitize_ok prime negotiate rules_of dbg Hst ops [] [] hs now
            (RelS_nil rules_of) Hops).
 Qed.
+
+(** ---- 12. the vector layer refines the association-list layer of Model/Cache.v (C03/C04) ---- *)
+Lemma same_names_eq (a c : hcoll) : map fst a = map fst c -> map snd a = map snd c -> a = c.
+Proof.
+  revert c; induction a as [|[n v] a IH]; intros [|[n' v'] c]; cbn [map fst snd]; intros H1 H2; try discriminate; [reflexivity|].
+  inversion H1; inversion H2; subst. f_equal. apply IH; assumption.
+Qed.
+
+Section RefinesAssoc.
+  Variable hstate : Type.
+  Variable compute : hstate -> request -> bool -> fat * hstate * list bytes.
+  Variable cache_on : bool.
+  Variable ims_on : bool.
+  Variable parse_ims : bytes -> option Z.
+  Variable sanitize_ok : request -> bool.
+  Variable prime : request -> request.
+  Variable negotiate : request -> fat -> option (N * bytes).
+  Variable rules_of : bytes -> list rule.
+  Variable dbg : bool.
+
+  (** the instances of Model/Cache.v's section variables that the vector model realises *)
+  Definition vary_tuple_of (r : request) : tuple := map snd (own_tuple rules_of r).
+  Definition vary_header_of (r : request) (f : fat) : list (bytes * bytes) :=
+    match f_body f with
+    | [] => []
+    | _ :: _ => [(B "vary", get_header (own_tuple rules_of r) false)]
+    end.
+  (** handlers do not set a [vary] header of their own (Model/Cache.v appends the cache's; the code replaces) *)
+  Hypothesis Hnovary : forall hs r ok, assoc (B "vary") (f_headers (fst (fst (compute hs r ok)))) = None.
+
+  Notation own := (own_tuple rules_of).
+  Notation serveX := (serveV hstate compute cache_on ims_on parse_ims sanitize_ok prime negotiate rules_of dbg).
+  Notation serveA := (serve hstate compute cache_on ims_on parse_ims sanitize_ok prime negotiate vary_tuple_of vary_header_of).
+  Notation finishA := (finish negotiate vary_header_of).
+  Notation finishX := (finishV negotiate).
+
+  Lemma finish_same r f lm cached :
+    assoc (B "vary") (f_headers f) = None -> finishX r f (own r) lm cached = finishA r f lm cached.
+  Proof.
+    intros Hn. unfold finishV, finish, vary_header_of, apply_header. destruct (negotiate r f) as [[st body]|].
+    - cbn [f_body]. destruct body; reflexivity.
+    - destruct (f_body f) eqn:Eb.
+      + rewrite app_nil_r. reflexivity.
+      + rewrite Hn. cbn [andb]. unfold hm_insert. rewrite filter_id_assoc_none by exact Hn. reflexivity.
+  Qed.
+
+  Lemma own_eqb r r0 : rq_path r = rq_path r0 ->
+    hc_eqb (own r0) (own r) = tuple_eqb (vary_tuple_of r) (vary_tuple_of r0).
+  Proof.
+    intros Hp. unfold vary_tuple_of.
+    destruct (hc_eqb (own r0) (own r)) eqn:E1, (tuple_eqb (map snd (own r)) (map snd (own r0))) eqn:E2; try reflexivity.
+    - apply hc_eqb_eq in E1. rewrite E1 in E2. rewrite (proj2 (tuple_eqb_eq _ _) eq_refl) in E2. discriminate.
+    - apply tuple_eqb_eq in E2. assert (own r0 = own r) as E.
+      { apply same_names_eq; [| symmetry; exact E2]. unfold own_tuple. rewrite !headers_for_request_names, Hp. reflexivity. }
+      rewrite E, hc_eqb_refl in E1. discriminate.
+  Qed.
+
+  Definition entry_rel (k : key) (ve : ventry) (e : entry) : Prop :=
+    ve_created ve = e_created e /\ ve_life ve = e_life e /\
+    forall r, rq_path r = kpath k -> v_find (vary_tuple_of r) (e_vars e) = vfind (own r) (vr_resps (ve_var ve)).
+  Definition cache_rel (cV : vcache) (c : cache) : Prop :=
+    forall k, match pc_find k cV, c_find k c with
+              | Some ve, Some e => entry_rel k ve e
+              | None, None => True
+              | _, _ => False
+              end.
+
+  Lemma cache_rel_nil : cache_rel [] [].
+  Proof. intros k. exact Logic.I. Qed.
+  Lemma cache_rel_remove k cV c : cache_rel cV c -> cache_rel (pc_remove k cV) (c_remove k c).
+  Proof.
+    intros H k0. rewrite pc_find_remove, c_find_remove. destruct (key_eqb k0 k); [exact Logic.I | apply H].
+  Qed.
+  Lemma cache_rel_insert k ve e cV c : cache_rel cV c -> entry_rel k ve e -> cache_rel (pc_insert k ve cV) (c_insert k e c).
+  Proof.
+    intros H He k0. rewrite pc_find_insert, c_find_insert. destruct (key_eqb k0 k) eqn:Ek; [|apply H].
+    apply key_eqb_eq in Ek. subst. exact He.
+  Qed.
+
+  Lemma get_item_rel k cV c now :
+    cache_rel cV c ->
+    match vget_item k cV now, get_item k c now with
+    | (Some ve, cV'), (Some e, c') => entry_rel k ve e /\ cV' = cV /\ c' = c /\ pc_find k cV = Some ve /\ vfresh ve now = true
+    | (None, cV'), (None, c') => cache_rel cV' c'
+    | _, _ => False
+    end.
+  Proof.
+    intros H. unfold vget_item, get_item. pose proof (H k) as Hk.
+    destruct (pc_find k cV) as [ve|] eqn:F1, (c_find k c) as [e|] eqn:F2; try contradiction.
+    - assert (Ef : vfresh ve now = fresh e now).
+      { destruct Hk as (Ec & El & _). unfold vfresh, fresh. rewrite Ec, El. reflexivity. }
+      rewrite Ef. destruct (fresh e now) eqn:Efr.
+      + split; [exact Hk|]. repeat split; try reflexivity; exact Ef.
+      + apply cache_rel_remove. exact H.
+    - exact H.
+  Qed.
+
+  Lemma lookup_rel r cV c now :
+    cache_rel cV c ->
+    match vlookup r cV now, lookup r c now with
+    | ((kV, Some ve), cV'), ((k, Some e), c') =>
+        kV = k /\ entry_rel k ve e /\ cache_rel cV' c' /\ pc_find k cV' = Some ve /\ vfresh ve now = true
+    | ((kV, None), cV'), ((k, None), c') => cache_rel cV' c'
+    | _, _ => False
+    end.
+  Proof.
+    intros H. unfold vlookup, lookup. pose proof (get_item_rel (key_pq r) cV c now H) as G1.
+    destruct (vget_item (key_pq r) cV now) as [[ve|] cV1], (get_item (key_pq r) c now) as [[e|] c1]; try contradiction.
+    - destruct G1 as (He & -> & -> & F & Fr). split; [reflexivity|]. split; [exact He|]. split; [exact H|]. split; assumption.
+    - pose proof (get_item_rel (key_p r) cV1 c1 now G1) as G2.
+      destruct (vget_item (key_p r) cV1 now) as [[ve|] cV2], (get_item (key_p r) c1 now) as [[e|] c2]; try contradiction.
+      + destruct G2 as (He & -> & -> & F & Fr). split; [reflexivity|]. split; [exact He|]. split; [exact G1|]. split; assumption.
+      + exact G2.
+  Qed.
+
+  Lemma vrelookup_same k cV now ve : pc_find k cV = Some ve -> vfresh ve now = true -> vrelookup k cV now = ((k, Some ve), cV).
+  Proof. intros F Fr. unfold vrelookup, vget_item. rewrite F, Fr. reflexivity. Qed.
+
+  Lemma miss_rel cV1 c1 hs now r ok :
+    InvV hstate compute rules_of cV1 -> cache_rel cV1 c1 ->
+    exists cV' c' hs' rp lg,
+      missV hstate compute cache_on ims_on negotiate rules_of dbg cV1 hs now r ok = Ok ((cV', hs'), rp, lg, [r]) /\
+      miss hstate compute cache_on ims_on negotiate vary_tuple_of vary_header_of c1 hs now r ok = ((c', hs'), rp, lg) /\
+      cache_rel cV' c'.
+  Proof.
+    intros I H. unfold missV, miss, new_and_cache. pose proof (Hnovary hs r ok) as Hn.
+    destruct (compute hs r ok) as [[f hs'] lg]. cbn [fst snd] in Hn.
+    rewrite vr_new_eq. cbn [vr_first vr_resps]. rewrite (finish_same r f _ _ Hn).
+    destruct (may_store cache_on (rq_method r) f).
+    - eexists; eexists; eexists; eexists; eexists. split; [reflexivity|]. split; [reflexivity|].
+      apply cache_rel_insert; [exact H|]. unfold entry_rel. cbn [ve_created ve_life e_created e_life ve_var vr_resps e_vars].
+      split; [reflexivity|]. split; [reflexivity|]. intros r1 Hp. rewrite kpath_insert_key in Hp.
+      cbn [v_find]. unfold vfind. cbn [find snd]. fold (own r). rewrite <- (own_eqb r1 r Hp).
+      destruct (hc_eqb (own r) (own r1)); reflexivity.
+    - eexists; eexists; eexists; eexists; eexists. split; [reflexivity|]. split; [reflexivity|]. exact H.
+  Qed.
+
+  Lemma serve_rel cV c hs now r0 :
+    InvV hstate compute rules_of cV -> cache_rel cV c ->
+    exists cV' c' hs' rp lg calls,
+      serveX (cV, hs) now r0 = Ok ((cV', hs'), rp, lg, calls) /\
+      serveA (c, hs) now r0 = ((c', hs'), rp, lg) /\ cache_rel cV' c'.
+  Proof.
+    intros I H. unfold serveV, serveV_phase1, serve. set (r := prime r0). set (ok := sanitize_ok r0).
+    destruct (negb cache_on) eqn:Eco.
+    { assert (Hc : cache_on = false) by (destruct cache_on; [discriminate | reflexivity]).
+      cbn [serveV_phase2 snd]. unfold missV, new_and_cache. pose proof (Hnovary hs r ok) as Hn.
+      destruct (compute hs r ok) as [[f hs'] lg]. cbn [fst snd] in Hn.
+      rewrite vr_new_eq. cbn [vr_first vr_resps]. rewrite (finish_same r f _ _ Hn).
+      assert (Hms : may_store cache_on (rq_method r) f = false) by (rewrite Hc; reflexivity).
+      assert (Hw : wants_cache cache_on (rq_method r) f = false) by (rewrite Hc; reflexivity).
+      rewrite Hms, Hw, andb_false_r.
+      eexists; eexists; eexists; eexists; eexists; eexists. split; [reflexivity|]. split; [reflexivity | exact H]. }
+    pose proof (lookup_rel r cV c now H) as L.
+    destruct (vlookup r cV now) as [[kV foundV] cV1] eqn:LV. destruct (lookup r c now) as [[k found] c1] eqn:LA.
+    destruct (vlookup_inv hstate compute rules_of _ _ _ _ _ _ LV I) as (I1 & Hkp & Hent).
+    destruct foundV as [ve|], found as [e|]; try contradiction.
+    - destruct L as (-> & He & H1 & F & Fr).
+      destruct (ok && get_or_head (rq_method r)) eqn:G.
+      + destruct He as (Ec & El & Hv). rewrite Ec.
+        destruct (match (if ims_on then match header (B "if-modified-since") r with Some v => parse_ims v | None => None end else None)
+                  with Some t => ims_fresh t (e_created e) | None => false end).
+        { eexists; eexists; eexists; eexists; eexists; eexists. split; [reflexivity|]. split; [reflexivity | exact H1]. }
+        destruct (Hent ve eq_refl) as (S & Hne & Hrefs & Hall).
+        assert (Ht : headers_for_request (vr_refs (ve_var ve)) r = own r) by (rewrite Hrefs, Hkp; reflexivity).
+        rewrite (Hv r (eq_sym Hkp)).
+        destruct (get_by_request_sorted (ve_var ve) r S) as [(f0 & Ef & Hin & Eg) | (En & LL & GG & Ell & Eg & FL & FG)];
+          rewrite Eg; rewrite Ht in *.
+        * rewrite Ef. destruct (Hall _ _ Hin) as (r1 & (hs1 & ok1 & C1) & _ & _).
+          assert (Hn : assoc (B "vary") (f_headers f0) = None) by (rewrite <- C1; apply Hnovary).
+          rewrite (finish_same r f0 _ _ Hn).
+          eexists; eexists; eexists; eexists; eexists; eexists. split; [reflexivity|]. split; [reflexivity | exact H1].
+        * rewrite En. cbn [serveV_phase2 snd]. unfold vary_missing. pose proof (Hnovary hs r ok) as Hn.
+          apply andb_true_iff in G as [Gok _]. rewrite Gok in *.
+          destruct (compute hs r true) as [[f hs'] lg]. cbn [fst snd] in Hn.
+          rewrite (vrelookup_same _ _ _ _ F Fr). rewrite Eg.
+          rewrite (push_at dbg (ve_var ve) LL GG f _ Ell) by (rewrite <- Ht; apply headers_for_request_length).
+          rewrite (finish_same r f _ _ Hn). rewrite Ec, El.
+          eexists; eexists; eexists; eexists; eexists; eexists. split; [reflexivity|]. split; [reflexivity|].
+          apply cache_rel_insert; [exact H1|]. unfold entry_rel.
+          cbn [ve_created ve_life e_created e_life ve_var vr_resps e_vars]. split; [reflexivity|]. split; [reflexivity|].
+          intros r1 Hp. cbn [v_find]. rewrite vfind_insert by exact FL. rewrite <- Ell.
+          rewrite <- (own_eqb r1 r) by congruence. rewrite (Hv r1 Hp). reflexivity.
+      + destruct (miss_rel cV1 c1 hs now r ok I1 H1) as (cV' & c' & hs' & rp & lg & E1 & E2 & H').
+        cbn [serveV_phase2 snd]. rewrite E1, E2. eexists; eexists; eexists; eexists; eexists; eexists.
+        split; [reflexivity|]. split; [reflexivity | exact H'].
+    - destruct (miss_rel cV1 c1 hs now r ok I1 L) as (cV' & c' & hs' & rp & lg & E1 & E2 & H').
+      cbn [serveV_phase2 snd]. rewrite E1, E2. eexists; eexists; eexists; eexists; eexists; eexists.
+      split; [reflexivity|]. split; [reflexivity | exact H'].
+  Qed.
+
+  Notation stepX := (stepV hstate compute cache_on ims_on parse_ims sanitize_ok prime negotiate rules_of dbg).
+  Notation stepA := (step hstate compute cache_on ims_on parse_ims sanitize_ok prime negotiate vary_tuple_of vary_header_of).
+  Notation runX := (runV hstate compute cache_on ims_on parse_ims sanitize_ok prime negotiate rules_of dbg).
+  Notation runA := (run hstate compute cache_on ims_on parse_ims sanitize_ok prime negotiate vary_tuple_of vary_header_of).
+
+  Lemma find_rel_none k cV c : cache_rel cV c ->
+    match pc_find k cV with None => true | Some _ => false end = match c_find k c with None => true | Some _ => false end.
+  Proof. intros H. specialize (H k). destruct (pc_find k cV), (c_find k c); try contradiction; reflexivity. Qed.
+
+  Lemma step_rel cV c hs now o :
+    InvV hstate compute rules_of cV -> cache_rel cV c ->
+    exists cV' c' hs' now' ob calls,
+      stepX (cV, hs) now o = Ok ((cV', hs'), now', ob, calls) /\
+      stepA (c, hs) now o = ((c', hs'), now', ob) /\ cache_rel cV' c'.
+  Proof.
+    intros I H. destruct o as [r0 | r | | ms]; cbn [stepV step].
+    - destruct (serve_rel cV c hs now r0 I H) as (cV' & c' & hs' & rp & lg & calls & E1 & E2 & H'). rewrite E1, E2.
+      eexists; eexists; eexists; eexists; eexists; eexists. split; [reflexivity|]. split; [reflexivity | exact H'].
+    - pose proof (find_rel_none (key_pq r) cV c H) as N1. pose proof (find_rel_none (key_p r) cV c H) as N2.
+      eexists; eexists; eexists; eexists; eexists; eexists. split; [reflexivity|]. split.
+      + f_equal. f_equal. f_equal.
+        destruct (pc_find (key_pq r) cV), (c_find (key_pq r) c); try discriminate;
+          destruct (pc_find (key_p r) cV), (c_find (key_p r) c); try discriminate; reflexivity.
+      + unfold vclear_page, clear_page. apply cache_rel_remove, cache_rel_remove, H.
+    - eexists; eexists; eexists; eexists; eexists; eexists. split; [reflexivity|]. split; [reflexivity | apply cache_rel_nil].
+    - eexists; eexists; eexists; eexists; eexists; eexists. split; [reflexivity|]. split; [reflexivity | exact H].
+  Qed.
+
+  (** for every history the observations of the vector server are those of Model/Cache.v's server *)
+  Lemma run_rel ops : forall cV c hs now,
+    InvV hstate compute rules_of cV -> cache_rel cV c ->
+    exists l, runX (cV, hs) now ops = Ok l /\ map fst l = runA (c, hs) now ops.
+  Proof.
+    induction ops as [|o ops IH]; intros cV c hs now I H; cbn [runV run].
+    - exists []. split; reflexivity.
+    - destruct (step_rel cV c hs now o I H) as (cV' & c' & hs' & now' & ob & calls & E1 & E2 & H').
+      destruct (stepV_ok hstate compute cache_on ims_on parse_ims sanitize_ok prime negotiate rules_of dbg cV hs now o I)
+        as (st2 & now2 & ob2 & calls2 & E3 & I' & _).
+      rewrite E1 in E3. inversion E3; subst st2 now2 ob2 calls2. cbn [fst] in I'.
+      rewrite E1, E2. destruct (IH cV' c' hs' now' I' H') as (l & El & Em). rewrite El.
+      exists ((ob, calls) :: l). split; [reflexivity|]. cbn [map fst]. rewrite Em. reflexivity.
+  Qed.
+End RefinesAssoc.
+
+(** ---- 13. with C03: the caching server with variant vectors is transparent ---- *)
+Section VaryTransparent.
+  Variable hstate : Type.
+  Variable compute : hstate -> request -> bool -> fat * hstate * list bytes.
+  Variable ims_on : bool.
+  Variable parse_ims : bytes -> option Z.
+  Variable sanitize_ok : request -> bool.
+  Variable prime : request -> request.
+  Variable negotiate : request -> fat -> option (N * bytes).
+  Variable rules_of : bytes -> list rule.
+  Variable dbg : bool.
+  Hypothesis Hnovary : forall hs r ok, assoc (B "vary") (f_headers (fst (fst (compute hs r ok)))) = None.
+  (** the handler contract of C03, with the vary tuple made concrete: the transformed header list *)
+  Variable cf : request -> bool -> fat.
+  Hypothesis Hpure : forall hs r ok, fst (fst (compute hs r ok)) = cf r ok.
+  Hypothesis contract : forall r r',
+    get_or_head (rq_method r) = true -> get_or_head (rq_method r') = true ->
+    vary_tuple_of rules_of r = vary_tuple_of rules_of r' -> rq_path r = rq_path r' ->
+    (qm (cf r true) = true -> path_query r = path_query r') ->
+    cf r true = cf r' true.
+  Hypothesis pref_uniform : forall r r', rq_path r = rq_path r' -> qm (cf r true) = qm (cf r' true).
+  Hypothesis Herr : forall r, f_spref (cf r false) = SP_NONE.
+
+  Lemma vary_transparent ops hs hsU now :
+    Forall (op_no_ims ims_on prime) ops ->
+    exists l,
+      runV hstate compute true ims_on parse_ims sanitize_ok prime negotiate rules_of dbg ([], hs) now ops = Ok l /\
+      Forall2 obs_equiv (map fst l)
+        (run hstate compute false ims_on parse_ims sanitize_ok prime negotiate (vary_tuple_of rules_of) (vary_header_of rules_of)
+             ([], hsU) now ops).
+  Proof.
+    intros Hno.
+    destruct (run_rel hstate compute true ims_on parse_ims sanitize_ok prime negotiate rules_of dbg Hnovary ops [] [] hs now
+                (InvV_nil hstate compute rules_of) (cache_rel_nil rules_of)) as (l & El & Em).
+    exists l. split; [exact El|]. rewrite Em.
+    apply (run_sim hstate compute ims_on parse_ims sanitize_ok prime negotiate (vary_tuple_of rules_of) (vary_header_of rules_of)
+             cf Hpure contract pref_uniform Herr); [apply Inv_nil | exact Hno].
+  Qed.
+End VaryTransparent.
